@@ -693,6 +693,9 @@ func (o *OpenAPI3Importer) buildResponses(
 		}
 		for mediaType, obj := range content {
 			f, err := o.fieldForMediaType(mediaType, obj, mtType)
+			if err != nil {
+				return err
+			}
 			if f.Type.Name() == OpenAPI_OBJECT {
 				validOperationID := regexp.MustCompile("^[a-zA-Z_]+$")
 				if op.OperationID != "" && validOperationID.MatchString(op.OperationID) {
@@ -700,9 +703,6 @@ func (o *OpenAPI3Importer) buildResponses(
 				} else {
 					f.Type.SetName(fmt.Sprintf("%s_%s", method, respType.Name()))
 				}
-			}
-			if err != nil {
-				return err
 			}
 			respType.Properties = append(respType.Properties, f)
 		}
